@@ -977,7 +977,8 @@ impl<Writer: Write> Muxer<Writer> {
     /// Simple video encoding method.
     pub fn encode_video(&mut self, data: &[u8], duration_ms: u32) -> Result<(), MuxerError> {
         let pts = self.current_video_pts;
-        let is_keyframe = self.is_keyframe(data);
+        // Empty frames are rejected by write_video; do not inspect them.
+        let is_keyframe = !data.is_empty() && self.is_keyframe(data);
         self.write_video(pts, data, is_keyframe)?;
         self.current_video_pts += duration_ms as f64 / 1000.0;
         Ok(())
@@ -1007,12 +1008,16 @@ impl<Writer: Write> Muxer<Writer> {
         match self.video_track.codec {
             VideoCodec::H264 => {
                 // Check for IDR NAL (type 5)
-                let has_idr = AnnexBNalIter::new(data).any(|nal| (nal[0] & 0x1f) == 5);
+                let has_idr =
+                    AnnexBNalIter::new(data).any(|nal| !nal.is_empty() && (nal[0] & 0x1f) == 5);
                 has_idr
             }
             VideoCodec::H265 => {
                 // Check for IDR NAL (type 19-21)
                 let has_idr = AnnexBNalIter::new(data).any(|nal| {
+                    if nal.is_empty() {
+                        return false;
+                    }
                     let nal_type = (nal[0] >> 1) & 0x3f;
                     (19..=21).contains(&nal_type)
                 });
@@ -1035,6 +1040,11 @@ impl<Writer: Write> Muxer<Writer> {
             VideoCodec::Vp9 => {
                 // Use VP9 keyframe detection
                 let is_key = is_vp9_keyframe(data).unwrap_or(false);
+
+                // Frames too short to carry a frame marker are not keyframes.
+                if data.len() < 3 {
+                    return false;
+                }
 
                 // INV-104: VP9 keyframe detection must handle invalid frames gracefully
                 assert_invariant!(
